@@ -43,8 +43,25 @@ def gen_spec(rng):
     if rng.random() < 0.3:
         rxns.append({"id": "ISO1", "st": {"Mi1": "-1", "Mi2": "1"}, "lb": "-1000", "ub": "1000", "rule": ""})
         rxns.append({"id": "ISO2", "st": {"Mi2": "-1", "Mi1": "1"}, "lb": "0", "ub": "1000", "rule": ""})
+    if rng.random() < 0.35:
+        # two compartments: the exchanges act on external metabolites (`_e`) that a transporter connects to the internal ones, and the internal
+        # metabolites get demand / sink reactions, some of them closed (boundary reactions that are not exchanges)
+        new = []
+        for r in rxns:
+            if r["id"].startswith("EX_"):
+                (mid, c), = r["st"].items()
+                r["st"] = {mid + "_e": c}
+                new.append({"id": "TR_" + mid, "st": {mid + "_e": "-1", mid: "1"}, "lb": "-1000", "ub": "1000", "rule": ""})
+        rxns.extend(new)
+        for mid in rng.sample(mets, rng.randint(1, min(2, len(mets)))):
+            if rng.random() < 0.5:
+                lb, ub = rng.choice([("0", "0"), ("0", "0"), ("0", "10")])
+                rxns.append({"id": "DM_" + mid, "st": {mid: "-1"}, "lb": lb, "ub": ub, "rule": ""})
+            else:
+                lb, ub = rng.choice([("0", "0"), ("0", "0"), ("-10", "10")])
+                rxns.append({"id": "SK_" + mid, "st": {mid: "-1"}, "lb": lb, "ub": ub, "rule": ""})
     obj = {rng.choice(rxns)["id"]: "1"} if rng.random() < 0.85 else {}
-    return {"rxns": rxns, "obj": obj, "dir": "max", "groups": [], "extra_mets": []}
+    return {"rxns": rxns, "obj": obj, "dir": rng.choice(["max", "max", "min"]), "groups": [], "extra_mets": []}
 
 
 def opened(spec):
